@@ -704,7 +704,7 @@ class XsdEnumerationFacets(XsdFacet, MutableSequence[ElementType]):
                 if any(math.isinf(x) and str(value) == str(x)  # type: ignore[arg-type]
                        for x in self.enumeration):  # pragma: no cover
                     return
-        except TypeError:
+        except (TypeError, OverflowError):
             pass
 
         reason = _("value must be one of {!r}").format(self.enumeration)
